@@ -256,7 +256,7 @@ Qed.
 
 Theorem pstep_total : forall cfg st e p, pcfg_ok cfg -> total p (fst (pstep cfg st e)) = total p st.
 Proof.
-  intros cfg st e p Hok. destruct e as [|i lg|i k o|i|i|].
+  intros cfg st e p Hok. destruct e as [|i lg|i k o|i|i|i|].
   - (* PConnect *) unfold total. cbn [pstep fst pp_pool pp_sess pp_lost]. rewrite sumf_app.
     cbn [sumf sports p_passive p_inflight opt_list map app occ]. lia.
   - (* Pasv *)
@@ -307,6 +307,7 @@ Proof.
           rewrite (sumf_upd _ _ _ _ _ Hn). unfold sports. cbn [p_passive p_inflight opt_list].
           rewrite !occ_app, (occ_remove_nth p _ k su Ek). cbn [app occ]. lia. }
       unfold v6_reply. destruct (pc_ipv6 cfg && su_legacy su); cbn [fst]; [rewrite end_psess_total by assumption|]; exact Hin.
+  - reflexivity.
   - reflexivity.
   - cbn. apply end_psess_total; assumption.
   - cbn. apply end_all_total; assumption.
@@ -446,7 +447,7 @@ Theorem pstep_calm : forall cfg st e,
   pcfg_ok cfg -> pc_hier cfg = true -> calm st -> quiet_ev cfg st e = true ->
   calm (fst (pstep cfg st e)).
 Proof.
-  intros cfg st e Hok Hh Hc Hq. destruct e as [|i lg|i k o|i|i|].
+  intros cfg st e Hok Hh Hc Hq. destruct e as [|i lg|i k o|i|i|i|].
   - (* PConnect *) constructor; cbn; try apply Hc.
     apply Forall_app. split; [apply Hc|]. constructor; [|constructor].
     solve_calm.
@@ -496,6 +497,7 @@ Proof.
       unfold v6_reply. destruct (pc_ipv6 cfg && su_legacy su); cbn [fst] in *; [|exact Hin].
       apply end_psess_calm; [assumption|exact Hin|].
       unfold no_inflight. cbn [pp_sess]. rewrite (nth_error_upd_same _ _ _ _ Hn). reflexivity.
+  - assumption.
   - assumption.
   - cbn. cbn [quiet_ev] in Hq. apply orb_true_iff in Hq as [Hg|Hq];
       [apply end_psess_calm_gb|apply end_psess_calm]; assumption.
@@ -637,7 +639,7 @@ Theorem pstep_viewed : forall cfg st e,
   (forall p, total p st = occ p (pc_ports cfg)) -> viewed_ok cfg st ->
   viewed_ok cfg (fst (pstep cfg st e)).
 Proof.
-  intros cfg st e Ht Hv. destruct e as [|i lg|i k o|i|i|].
+  intros cfg st e Ht Hv. destruct e as [|i lg|i k o|i|i|i|].
   - unfold viewed_ok. cbn. apply Forall_app. split; [assumption|]. repeat constructor.
   - cbn [pstep]. destruct (plive st i) as [s|] eqn:El; [|assumption].
     apply plive_some in El as [Hn Hl].
@@ -676,6 +678,7 @@ Proof.
           cbn [fst]; unfold viewed_ok; cbn; (apply Forall_upd; [assumption|]); cbn;
           apply Forall_remove_nth; assumption. }
       unfold v6_reply. destruct (pc_ipv6 cfg && su_legacy su); cbn [fst]; [apply end_psess_viewed|]; exact Hin.
+  - assumption.
   - assumption.
   - cbn. apply end_psess_viewed; assumption.
   - cbn. apply end_all_viewed; assumption.
@@ -772,7 +775,7 @@ Theorem pstep_clean : forall cfg st e,
   pcfg_ok cfg -> pc_hier cfg = true -> pc_giveback cfg = true -> pc_recheck cfg = true ->
   clean st -> clean (fst (pstep cfg st e)).
 Proof.
-  intros cfg st e Hok Hh Hg Hr Hc. destruct e as [|i lg|i k o|i|i|].
+  intros cfg st e Hok Hh Hg Hr Hc. destruct e as [|i lg|i k o|i|i|i|].
   - constructor; cbn; try apply Hc.
     apply Forall_app. split; [apply Hc|]. constructor; [apply live_clean|constructor].
   - cbn [pstep]. destruct (plive st i) as [s|] eqn:El; [|assumption].
@@ -803,6 +806,7 @@ Proof.
           -- rewrite (clean_orph _ Hc). reflexivity.
           -- apply Forall_upd; [apply Hc|apply live_clean]. }
       unfold v6_reply. destruct (pc_ipv6 cfg && su_legacy su); cbn [fst]; [apply end_psess_clean; auto|exact Hin].
+  - assumption.
   - assumption.
   - cbn. apply end_psess_clean; assumption.
   - cbn. apply end_all_clean; assumption.
